@@ -54,10 +54,13 @@ func (s TypedStringEnumSchema[T]) Unserialize(data any) (any, error) {
 	return typedData, s.Validate(typedData)
 }
 
-func (s TypedStringEnumSchema[T]) UnserializeType(data any) (string, error) {
+// UnserializeType returns the value as the enum's Go type T, which is what Unserialize produces and what
+// ValidateType and SerializeType take. (It used to be declared as returning string and asserted the T
+// value to string, which panics for every T other than string itself.)
+func (s TypedStringEnumSchema[T]) UnserializeType(data any) (T, error) {
 	unserialized, err := s.Unserialize(data)
 	if err != nil {
 		return "", err
 	}
-	return unserialized.(string), nil
+	return unserialized.(T), nil
 }
